@@ -157,6 +157,70 @@ def run_trading(rnd, S, cfgk, intensity=1.0, script=None, analyser=False, ids=No
                     out.append((srec["id"], "down"))
         return out
 
+    plan = {"bars": 0, "fut": None, "cash_edge_day": None}
+
+    def directed_ops(context, phase):
+        """directed multi-step scenarios, fixed per run (they need a specific sequence a random script rarely produces)"""
+        import rqalpha.api as api
+        env = Environment.get_instance()
+        out = []
+        if phase != "BAR":
+            return out
+        plan["bars"] += 1
+        day = plan["bars"]
+        if plan["fut"] is None:
+            plan["fut"] = (srnd.choice(futs), srnd.choice(["long", "short"])) if (futs and "FUTURE" in context.portfolio.accounts and srnd.random() < 0.6) else ()
+            plan["cash_edge_day"] = srnd.randrange(1, 5) if (stocks and "STOCK" in context.portfolio.accounts and srnd.random() < 0.5) else 0
+        if plan["fut"]:
+            oid, side = plan["fut"]
+            open_fn, close_fn = (api.buy_open, api.sell_close) if side == "long" else (api.sell_open, api.buy_close)
+            if day == 1:
+                def f1(call, before, oid=oid, side=side, open_fn=open_fn):
+                    call.update(api="plan_future_open", args=(oid, side, 2))
+                    return [open_fn(oid, 2)]
+                out.append(f1)
+            elif day == 2:
+                def f2(call, before, oid=oid, side=side, open_fn=open_fn, close_fn=close_fn):
+                    # yesterday's 2 lots + 1 lot opened now; a resting close of 2 lots commits the old part; then close 3: the API splits it
+                    # into CLOSE 2 (refused: nothing closable is left of the old part) + CLOSE_TODAY 1 (must still be submitted)
+                    call.update(api="plan_future_split_close", args=(oid, side))
+                    price = env.get_last_price(oid)
+                    r0 = open_fn(oid, 1)
+                    far = float(round(price * (1.03 if side == "long" else 0.97)))
+                    r1 = close_fn(oid, 2, price_or_style=LimitOrder(far))
+                    r2 = close_fn(oid, 3)
+                    return [r0, r1, r2]
+                out.append(f2)
+        if plan["cash_edge_day"] and day == plan["cash_edge_day"]:
+            def f3(call, before):
+                # a resting limit buy reserves about half of the available cash; a second purchase of about 70% of it must be refused
+                oid = srnd.choice(stocks)
+                price = env.get_last_price(oid)
+                cash = context.portfolio.accounts["STOCK"].cash
+                call.update(api="plan_cash_edge", args=(oid,))
+                if not (price == price and price > 0 and cash > 20 * price * 100):
+                    return []
+                lot = 100
+                q1 = int(0.5 * cash / price) // lot * lot
+                q2 = int(0.7 * cash / price) // lot * lot
+                r1 = api.order_shares(oid, q1, price_or_style=LimitOrder(round(price * 0.985, 2)))
+                r2 = api.order_shares(oid, q2, price_or_style=LimitOrder(round(price * 0.985, 2)))
+                return [r1, r2]
+            out.append(f3)
+        # the whole holding sold on the ex-dividend date (receivable still pending)
+        today8 = B.d8(env.trading_dt.date())
+        if "STOCK" in context.portfolio.accounts:
+            for oid in stocks:
+                for r in S["div"].get(oid, []):
+                    if r[2] == today8 and r[3] > today8:
+                        pos = context.portfolio.accounts["STOCK"].get_position(oid, POSITION_DIRECTION.LONG)
+                        if pos.quantity > 0 and pos.closable > 0 and srnd.random() < 0.6:
+                            def f4(call, before, oid=oid, q=pos.closable):
+                                call.update(api="order_shares", args=(oid, -q, None))
+                                return api.order_shares(oid, -q)
+                            out.append(f4)
+        return out
+
     def ops(context, phase):
         import rqalpha.api as api
         env = Environment.get_instance()
@@ -164,7 +228,9 @@ def run_trading(rnd, S, cfgk, intensity=1.0, script=None, analyser=False, ids=No
         if reseed_key is not None:      # decisions are a function of (key, clock, phase) only: the strategy has no hidden state (resumable)
             srnd.seed("%s|%s|%s" % (reseed_key, env.calendar_dt, phase))
         n_ops = srnd.choice([0, 0, 1, 1, 2, 3, 5]) if intensity >= 1 else srnd.choice([0, 0, 0, 1, 2])
-        for _ in range(n_ops):
+        forced_ops = directed_ops(context, phase)
+        for it in range(len(forced_ops) + n_ops):
+            forced = forced_ops[it] if it < len(forced_ops) else None
             r = srnd.random()
             call = {"phase": phase, "when": env.calendar_dt, "api": None, "args": None, "orders": [], "exc": None}
             before = accounts_snap(context)
@@ -188,7 +254,9 @@ def run_trading(rnd, S, cfgk, intensity=1.0, script=None, analyser=False, ids=No
             open_before = [o.order_id for o in env.broker.get_open_orders()]
             res = None
             try:
-                if phase == "AUC" and stocks and "STOCK" in before and srnd.random() < 0.2:
+                if forced is not None:
+                    res = forced(call, before)
+                elif phase == "AUC" and stocks and "STOCK" in before and srnd.random() < 0.2:
                     # directed combination: a limit order in the auction larger than one round of the volume cap, priced to fill
                     # in the auction AND in the day bar (an order completed by several fills)
                     oid = srnd.choice(stocks)
@@ -267,7 +335,8 @@ def run_trading(rnd, S, cfgk, intensity=1.0, script=None, analyser=False, ids=No
                         side = srnd.choice(["long", "short"])
                         qty = hh[side]["qty"] if hh else 0
                         if qty <= 0:
-                            res += api.buy_open(oid, srnd.choice([2, 3, 5])) if side == "long" else api.sell_open(oid, srnd.choice([2, 3, 5]))
+                            r0 = api.buy_open(oid, srnd.choice([2, 3, 5])) if side == "long" else api.sell_open(oid, srnd.choice([2, 3, 5]))
+                            res = [r0]
                         else:
                             close_fn = api.sell_close if side == "long" else api.buy_close
                             far = float(round(price * (1.02 if side == "long" else 0.98)))
